@@ -90,11 +90,53 @@ class C18(univ.UnivCheck):
                                         observed=got, expected=exp, kind="input") | {"input": (h, lst, x)})
             if len(smp) < 2 and len(lst) == 4:
                 smp.append({"list": [repr(v) for v in lst], "probes": [repr(p) for p in probes]})
+        out += self.history_pass(lo, hi, fns, c)
         return out, c, smp
+
+    def history_pass(self, lo, hi, fns, c):
+        """The helpers are functions of (list contents, probe) only: the same shard again in probe-major order.
+
+        For each helper and probe all lists of the shard are visited consecutively - first as fresh list objects
+        (a freed list's address is normally reused by the next one), then as ONE list object mutated in place - so
+        that an answer remembered from an earlier call on a list of the same identity / length would be exposed.
+        """
+        out = []
+        by_dom = {}
+        for dname, combo in self.cases[lo:hi]:
+            by_dom.setdefault(dname, []).append(combo)
+        for dname, combos in by_dom.items():
+            _, dom, probes = self.doms[dname]
+            for h in HELPERS:
+                f = fns[h]
+                for x in probes:
+                    shared = []
+                    for mode in ("fresh", "in-place"):  # each mode as its own uninterrupted run of calls
+                        for combo in combos:
+                            vals = [dom[i] for i in combo]
+                            exp = ("ret", ref(h, vals, x))
+                            if mode == "fresh":
+                                arg = list(vals)
+                            else:
+                                shared[:] = vals
+                                arg = shared
+                            c["evaluations"] += 1
+                            try:
+                                got = ("ret", f(arg, x))
+                            except Exception as e:  # noqa
+                                got = ("exc", type(e).__name__)
+                            if got != exp:
+                                out.append(viol("helper-position", f"C18|{h}|domain={dname}|depends-on-call-history:{mode}",
+                                                observed=got, expected=exp, kind="input") | {"input": (h, vals, x)})
+        return out
 
     def recheck(self, rec):
         from tinyflux import utils
 
+        if "depends-on-call-history" in rec["signature"]:
+            # history-dependent answers need the preceding calls: re-run the whole (small) universe
+            self.worker_init()
+            out, _, _ = self.run_range(0, len(self.cases))
+            return [v for v in out if v["signature"] == rec["signature"]][:1]
         h, lst, x = rec["input"]
         try:
             got = ("ret", getattr(utils, h)(list(lst), x))
